@@ -3,14 +3,23 @@
 package main
 
 import (
+	"context"
+	"encoding/hex"
 	"encoding/json"
 	"fmt"
 	"os"
 	"path/filepath"
 	"strconv"
 	"strings"
+	"time"
+
+	"google.golang.org/protobuf/proto"
+	"google.golang.org/protobuf/types/known/timestamppb"
 
 	"github.com/apache/skywalking-banyandb/api/common"
+	streamv1 "github.com/apache/skywalking-banyandb/api/proto/banyandb/stream/v1"
+	"github.com/apache/skywalking-banyandb/banyand/query"
+	"github.com/apache/skywalking-banyandb/pkg/bus"
 	modelv1 "github.com/apache/skywalking-banyandb/api/proto/banyandb/model/v1"
 	"github.com/apache/skywalking-banyandb/banyand/internal/sidx"
 	"github.com/apache/skywalking-banyandb/banyand/observability"
@@ -56,14 +65,11 @@ func closeStream() {
 	}
 }
 
-func streamParity(f []string) string {
-	if len(f) != 3 {
-		return "bad-op"
-	}
-	if curStream == nil || curStreamKey != f[1] {
+func streamParityOpen(dsJSON string) string {
+	if curStream == nil || curStreamKey != dsJSON {
 		closeStream()
 		var ds sDataset
-		if err := json.Unmarshal([]byte(f[1]), &ds); err != nil {
+		if err := json.Unmarshal([]byte(dsJSON), &ds); err != nil {
 			return "bad-op dataset json"
 		}
 		dsSeq++
@@ -88,7 +94,17 @@ func streamParity(f []string) string {
 				return "SETUP-ERR " + classify(werr.Error())
 			}
 		}
-		curStream, curStreamKey = e, f[1]
+		curStream, curStreamKey = e, dsJSON
+	}
+	return ""
+}
+
+func streamParity(f []string) string {
+	if len(f) != 3 {
+		return "bad-op"
+	}
+	if r := streamParityOpen(f[1]); r != "" {
+		return r
 	}
 	var q sQuery
 	if err := json.Unmarshal([]byte(f[2]), &q); err != nil {
@@ -219,4 +235,104 @@ func sidxRespIter(f []string) string {
 		return "-"
 	}
 	return strings.Join(out, ",")
+}
+
+// fbt <tag> <schemaType> <col>,<col>,...     col = <name>.<valueType>.<t|u>   (t = stored with the "#type" suffix, u = legacy plain name)
+// trace block tag resolution: vectorized findBlockTag vs the row path's resolveTagProjection.  output: vec=<stored name|nil> row=<..>
+func findBlockTagOp(f []string) string {
+	if len(f) != 4 {
+		return "bad-op"
+	}
+	st, _ := strconv.Atoi(f[2])
+	var cols []trace.VerifC15Column
+	if f[3] != "-" {
+		for _, c := range strings.Split(f[3], ",") {
+			p := strings.Split(c, ".")
+			vt, _ := strconv.Atoi(p[1])
+			cols = append(cols, trace.VerifC15Column{Name: p[0], Type: vt, Typed: p[2] == "t"})
+		}
+	}
+	vec, row := trace.VerifC15FindTag(cols, f[1], st)
+	return "vec=" + vec + " row=" + row
+}
+
+// splan <dataset json> <query json>    stream, logical-plan level: the real streamQueryProcessor.Rev (Analyze -> Execute, or
+//   -> VecExecutable/ExecuteVectorized + egress filter) with the engine flag off and on over the same real parts.
+//   query: {"lo":ms,"hi":ms,"sort":"asc|desc|","limit":n,"offset":n,"crit":["filter-tag","eq|ne","<hex>"]|null,"series":k|0}
+// output: row=<ts:eid:tags,...|-|ERR:..> vec=<...>
+type pQuery struct {
+	Sort   string   `json:"sort"`
+	Crit   []string `json:"crit"`
+	Lo     int64    `json:"lo"`
+	Hi     int64    `json:"hi"`
+	Limit  uint32   `json:"limit"`
+	Offset uint32   `json:"offset"`
+	Series int      `json:"series"`
+	BS     int      `json:"bs"`
+}
+
+func streamPlanParity(f []string) string {
+	if len(f) != 3 {
+		return "bad-op"
+	}
+	if r := streamParityOpen(f[1]); r != "" {
+		return r
+	}
+	var q pQuery
+	if err := json.Unmarshal([]byte(f[2]), &q); err != nil {
+		return "bad-op query json"
+	}
+	req := &streamv1.QueryRequest{
+		Groups: []string{"test"}, Name: "benchmark", Limit: q.Limit, Offset: q.Offset,
+		TimeRange:  &modelv1.TimeRange{Begin: timestamppb.New(time.UnixMilli(q.Lo)), End: timestamppb.New(time.UnixMilli(q.Hi))},
+		Projection: &modelv1.TagProjection{TagFamilies: []*modelv1.TagProjection_TagFamily{{Name: "benchmark-family", Tags: []string{"entity-tag", "filter-tag"}}}},
+	}
+	if q.Sort != "" {
+		req.OrderBy = &modelv1.QueryOrder{Sort: sortOf(q.Sort)}
+	}
+	var crits []*modelv1.Criteria
+	if len(q.Crit) == 3 {
+		crits = append(crits, &modelv1.Criteria{Exp: &modelv1.Criteria_Condition{Condition: &modelv1.Condition{
+			Name: q.Crit[0], Op: condOps[q.Crit[1]], Value: parseTagValue("S" + q.Crit[2])}}})
+	}
+	if q.Series > 0 {
+		crits = append(crits, &modelv1.Criteria{Exp: &modelv1.Criteria_Condition{Condition: &modelv1.Condition{
+			Name: "entity-tag", Op: modelv1.Condition_BINARY_OP_EQ, Value: parseTagValue("S" + hex.EncodeToString([]byte("entity"+strconv.Itoa(q.Series))))}}})
+	}
+	switch len(crits) {
+	case 1:
+		req.Criteria = crits[0]
+	case 2:
+		req.Criteria = &modelv1.Criteria{Exp: &modelv1.Criteria_Le{Le: &modelv1.LogicalExpression{Op: modelv1.LogicalExpression_LOGICAL_OP_AND, Left: crits[0], Right: crits[1]}}}
+	}
+	run := func(vec bool) string {
+		curStream.SetVectorized(vec, q.BS)
+		proc := query.VerifC15NewStreamProcessor(func() stream.Stream { return curStream.Stream() })
+		return drv2(func() string {
+			resp := proc.Query(context.Background(), bus.NewMessage(1, proto.Clone(req).(*streamv1.QueryRequest)))
+			switch d := resp.Data().(type) {
+			case *streamv1.QueryResponse:
+				if len(d.GetElements()) == 0 {
+					return "-"
+				}
+				out := make([]string, 0, len(d.GetElements()))
+				for _, e := range d.GetElements() {
+					var tags []string
+					for _, tf := range e.GetTagFamilies() {
+						for _, t := range tf.GetTags() {
+							tags = append(tags, t.GetKey()+"="+showTagValue(t.GetValue()))
+						}
+					}
+					out = append(out, fmt.Sprintf("%d:%s:%s", e.GetTimestamp().AsTime().UnixNano(), e.GetElementId(), strings.Join(tags, ";")))
+				}
+				return strings.Join(out, ",")
+			case *common.Error:
+				return "ERR:" + classify(d.Error())
+			case []byte:
+				return "FRAME"
+			}
+			return fmt.Sprintf("BAD:%T", resp.Data())
+		})
+	}
+	return "row=" + run(false) + " vec=" + run(true)
 }
